@@ -45,7 +45,15 @@ struct tcb { struct tcb* next_entry; int state; struct slot pointers[XV_K]; };  
 struct tbl { struct tcb* head; struct node* abandoned_retired_nodes; };
 struct tbl_iter { struct tcb* ptr; };
 struct td { struct node* retire_list; size_t number_of_retired_nodes; struct slot* hint; struct tcb* control_block; };
+#ifdef XV_ABS_VEC
+/* ABSTRACT vector (scan-level runs): the abstraction function maps a concrete std::vector to the SET of its elements; here the set is
+ * represented by "which slot cells contributed which word".  Iterators are tags.  The contracts that justify it: run *_gather (real
+ * gather text appends exactly the non-link words of the entry), std::sort / std::unique+erase keep the set and make the vector sorted,
+ * run *_reclaim (real reclaim_nodes text decides by the set, requires sortedness). */
+struct vec { uintptr_t tag[3]; _Bool in[XV_E][XV_K]; uintptr_t val[XV_E][XV_K]; _Bool sorted, uniq_pending; uintptr_t data[1]; unsigned char n; };
+#else
 struct vec { uintptr_t data[VCAP + 1]; unsigned char n; };   /* n <= VCAP < 256 */
+#endif
 struct guard { struct node* ptr; struct slot* hp; };
 static const struct tbl_iter xv_no_iter = {0};
 static struct tbl_iter XV_MAKE_ITER(struct tcb* p) { struct tbl_iter it; it.ptr = p; return it; }
@@ -67,7 +75,25 @@ size_t number_of_active_hps; uint64_t era_clock;
 #define MP_get(v) ((uintptr_t)(v) & ~MARK_BIT)
 
 /* ---- std::vector / algorithms: stubs that implement exactly the standard contracts ---- */
-_Bool g_model_overflow;
+_Bool g_model_overflow; unsigned g_search_unsorted;
+typedef const uintptr_t* cit;
+#ifdef XV_ABS_VEC
+struct vec* g_absvec;
+static void VEC_init_f(struct vec* v) { for (unsigned k = 0; k < XV_E; k++) for (unsigned i = 0; i < XV_K; i++) { v->in[k][i] = 0; v->val[k][i] = nondet_uptr(); } v->sorted = 0; v->uniq_pending = 0; v->n = 0; g_absvec = v; }
+#define VEC_init(v) VEC_init_f(&(v))
+#define VEC_reserve(v, n) ((void)(n))
+#define VEC_push_back(v, x) (g_model_overflow = 1)         /* element-wise access is not representable in the abstract model */
+#define VEC_begin(v) (&(v).tag[0])
+#define VEC_end(v) (&(v).tag[1])
+static _Bool abs_full_range(cit b, cit e) { return g_absvec && b == &g_absvec->tag[0] && e == &g_absvec->tag[1]; }
+static void STD_sort(uintptr_t* b, uintptr_t* e) { if (abs_full_range(b, e) && !g_absvec->uniq_pending) g_absvec->sorted = 1; else g_model_overflow = 1; }   /* sorted permutation: same set, sorted */
+static uintptr_t* STD_unique(uintptr_t* b, uintptr_t* e) { if (abs_full_range(b, e)) { g_absvec->uniq_pending = 1; return &g_absvec->tag[2]; } g_model_overflow = 1; return b; }  /* same set; tail garbage until erased */
+static void vec_erase(struct vec* v, cit f, cit l) { if (f == &v->tag[2] && l == &v->tag[1] && v->uniq_pending) v->uniq_pending = 0; else g_model_overflow = 1; }
+#define VEC_erase(v, f, l) vec_erase(&(v), (f), (l))
+#define STD_binary_search(b, e, k) (g_model_overflow = 1, nondet_bool())
+#define STD_lower_bound(b, e, k) (g_model_overflow = 1, (cit)(b))
+#define VEC_IS_SORTED(v) ((v)->sorted && !(v)->uniq_pending)
+#else
 static void VEC_init_f(struct vec* v) { v->n = 0; for (unsigned i = 0; i <= VCAP; i++) v->data[i] = nondet_uptr(); }
 #define VEC_init(v) VEC_init_f(&(v))
 #define VEC_reserve(v, n) ((void)(n))
@@ -75,23 +101,19 @@ static void vec_push_back(struct vec* v, uintptr_t x) { if (v->n >= VCAP) { g_mo
 #define VEC_push_back(v, x) vec_push_back(&(v), (x))
 #define VEC_begin(v) (&(v).data[0])
 #define VEC_end(v) (&(v).data[(v).n])
-typedef const uintptr_t* cit;
 /* all stubs turn the iterator pair into (base pointer, length) once and then work with integer indices */
 static _Bool range_sorted(cit b, unsigned char n) { for (unsigned i = 0; i + 1 < VCAP; i++) if (i + 1 < n && b[i] > b[i + 1]) return 0; return 1; }
-/* std::sort: the result is the sorted permutation of the input.  The stub guarantees LESS (an over-approximation of the contract, hence
- * sound): same length, sorted, and the same SET of values (every input value occurs in the output and vice versa).  The assumptions
- * are always satisfiable (the sorted permutation satisfies them), so no behaviour is excluded. */
+/* std::sort: the result is THE sorted permutation of the input (unique as a sequence of values).  Encoded with a permutation witness
+ * and its inverse instead of a sorting network: same contract; the assumptions are always satisfiable, so no behaviour is excluded */
 static void STD_sort(uintptr_t* b, uintptr_t* e) {
-  unsigned char n = (unsigned char)(e - b); uintptr_t in[VCAP];
-  for (unsigned i = 0; i < VCAP; i++) { in[i] = b[i]; if (i < n) b[i] = nondet_uptr(); }
-  for (unsigned i = 0; i + 1 < VCAP; i++) if (i + 1 < n) XV_ASSUME(b[i] <= b[i + 1]);
+  unsigned char n = (unsigned char)(e - b); uintptr_t in[VCAP]; unsigned char perm[VCAP], inv[VCAP];
+  for (unsigned i = 0; i < VCAP; i++) { in[i] = b[i]; perm[i] = nondet_uchar(); inv[i] = nondet_uchar(); }
   for (unsigned i = 0; i < VCAP; i++) if (i < n) {
-    _Bool in_out = 0, out_in = 0;
-    for (unsigned k = 0; k < VCAP; k++) if (k < n) { if (b[k] == in[i]) in_out = 1; if (in[k] == b[i]) out_in = 1; }
-    XV_ASSUME(in_out && out_in);
+    XV_ASSUME(perm[i] < n && inv[i] < n && inv[perm[i]] == i && perm[inv[i]] == i);
+    b[i] = in[perm[i]];
   }
+  for (unsigned i = 0; i + 1 < VCAP; i++) if (i + 1 < n) XV_ASSUME(b[i] <= b[i + 1]);
 }
-unsigned g_search_unsorted;
 static _Bool xv_binary_search(cit b, cit e, uintptr_t key) {   /* sorted range: result <=> key in [b,e); otherwise unspecified */
   unsigned char n = (unsigned char)(e - b);
   if (!range_sorted(b, n)) { g_search_unsorted++; return nondet_bool(); }
@@ -114,6 +136,8 @@ static uintptr_t* STD_unique(uintptr_t* b, uintptr_t* e) {     /* removes consec
 static void vec_erase(struct vec* v, cit first, cit last) { if (last != &v->data[v->n]) { g_model_overflow = 1; return; } v->n = (unsigned char)(first - &v->data[0]); }
 #define VEC_erase(v, f, l) vec_erase(&(v), (f), (l))
 
+#define VEC_IS_SORTED(v) range_sorted(&(v)->data[0], (v)->n)
+#endif
 /* ---- ghost event record of a scan ---- */
 uint64_t g_fence_clock, g_first_slot_clock, g_adopt_clock, g_first_state_clock, g_head_clock; int g_head_order;
 unsigned g_slot_reads[XV_E][XV_K], g_state_reads[XV_E]; _Bool g_seen_active[XV_E], g_link_seen;
@@ -189,11 +213,30 @@ static void n_delete_self(struct node* n) {
 #define HE_TCB_begin(t) he_tcb_begin(&(t))
 #define HE_TCB_end(t) he_tcb_end(&(t))
 #define HE_TCB_number_of_hes(t) he_tcb_number_of_hes(&(t))
+#ifdef XV_ABS_VEC
+/* contract stub of <tcb>::gather_protected_pointers / gather_protected_eras (proved for the real text by run *_gather): reads every slot
+ * of this entry exactly once and adds exactly the non-link words (HE: the eras they encode) to the vector */
+static void abs_gather(const struct tcb* e, struct vec* v) {
+  for (unsigned k = 0; k < XV_E; k++) if (e == ENTRY(k)) for (unsigned i = 0; i < XV_K; i++) {
+    uintptr_t w = A_LOAD(ENTRY(k)->pointers[i].value, mo_relaxed);
+    if (MP_mark(w) == 0) { v->in[k][i] = 1;
 #ifdef XV_HE
+      v->val[k][i] = MP_get(w) >> 1;
+#else
+      v->val[k][i] = MP_get(w);
+#endif
+    }
+  }
+}
+#define TCB_gather(e, v) abs_gather(&(e), &(v))
+#elif defined(XV_HE)
 #define TCB_gather(e, v) he_tcb_gather(&(e), &(v))
-#define TCB_abandon(e) he_tcb_abandon(&(e))
 #else
 #define TCB_gather(e, v) hp_tcb_gather(&(e), &(v))
+#endif
+#ifdef XV_HE
+#define TCB_abandon(e) he_tcb_abandon(&(e))
+#else
 #define TCB_abandon(e) hp_tcb_abandon(&(e))
 #endif
 #define AS_number_of_active_hazard_pointers() hp_number_of_active_hazard_pointers()
@@ -213,16 +256,15 @@ static void td_scan_stub(struct td* t) { t_scan_n++; t_scan_seq = ++t_seq; t_cou
  * HE: contains an era in [construction_era, retirement_era]), otherwise it is added to the retire list; nothing else changes */
 static _Bool vec_protects(const struct vec* v, const struct node* n);
 static void n_delete_self(struct node* n);
-static _Bool range_sorted(const uintptr_t* b, unsigned char n);
 unsigned g_reclaim_unsorted;
 static void reclaim_nodes_stub(struct td* t, struct node* list, const struct vec* v) {
-  if (!range_sorted(&v->data[0], v->n)) g_reclaim_unsorted++;
+  if (!VEC_IS_SORTED(v)) g_reclaim_unsorted++;
   for (unsigned s = 0; s < NN; s++) if (list) {
     struct node* cur = list; list = list->next;
     if (vec_protects(v, cur)) { cur->next = t->retire_list; t->retire_list = cur; t->number_of_retired_nodes++; } else n_delete_self(cur);
   }
 }
-#ifdef XV_STUB_RECLAIM
+#if defined(XV_STUB_RECLAIM) || defined(XV_ABS_VEC)
 #define HP_RECLAIM_NODES(t, l, v) reclaim_nodes_stub((t), (l), (v))
 #define HE_RECLAIM_NODES(t, l, v) reclaim_nodes_stub((t), (l), (v))
 #else
@@ -233,6 +275,18 @@ static void reclaim_nodes_stub(struct td* t, struct node* list, const struct vec
 #define HE_TD_add_retired_node(t, p) he_add_retired_node(&(t), (p))
 #include "lowered.h"
 
+#ifdef XV_ABS_VEC
+static _Bool vec_protects(const struct vec* v, const struct node* n) {
+  for (unsigned k = 0; k < XV_E; k++) for (unsigned i = 0; i < XV_K; i++) if (v->in[k][i]) {
+#ifdef XV_HE
+    if (n->construction_era <= v->val[k][i] && v->val[k][i] <= n->retirement_era) return 1;
+#else
+    if (v->val[k][i] == n->addr) return 1;
+#endif
+  }
+  return 0;
+}
+#else
 static _Bool vec_protects(const struct vec* v, const struct node* n) {
   for (unsigned i = 0; i < VCAP; i++) if (i < v->n) {
 #ifdef XV_HE
@@ -243,6 +297,7 @@ static _Bool vec_protects(const struct vec* v, const struct node* n) {
   }
   return 0;
 }
+#endif
 /* =============================== state =============================== */
 /* inputs (in_*): list of in_ne entries epool(0..ne-1) (WLOG in pool order: entry addresses are never compared), their states and slot
  * words; the thread's retire list npool(0..nl-1) (in this order), the global abandoned list npool(L..L+na-1); node address words */
@@ -326,33 +381,37 @@ static void check_gather_complete(void) {
   XV_OBL("hpscan.gather.all_slots", g_state_reads[k] >= 1 && (!g_seen_active[k] || g_slot_reads[k][i] >= 1) && XV_IS_ACQUIRE(g_head_order));
 }
 
+struct vec in_vec;
 /* =============================== scan =============================== */
 void h_scan(void) {
   havoc_state();
-  unsigned j = nondet_uint(); XV_ASSUME(j < NN);
   struct tcb* cb0 = local_thread_data.control_block;
   SCAN(&local_thread_data);
   check_order_obligations(); check_gather_complete();
-  _Bool wf; unsigned len = chain_len(local_thread_data.retire_list, &wf); unsigned o = occ(local_thread_data.retire_list, NODE(j));
+  _Bool wf; unsigned len = chain_len(local_thread_data.retire_list, &wf);
   XV_OBL(OBL_CONSERVE, wf && local_thread_data.number_of_retired_nodes == len && !g_double_delete);
   XV_OBL(OBL_CONSERVE, global_thread_block_list.abandoned_retired_nodes == 0 && local_thread_data.control_block == cb0 && g_state_store_n == 0);
-  if (is_own(j) || is_adopted(j)) {
-    XV_OBL(OBL_CONSERVE, (npool(j).deleted == 1 && o == 0) || (npool(j).deleted == 0 && o == 1));
-    if (PROTECTED(j)) { XV_OBL(OBL_SPARES, npool(j).deleted == 0 && o == 1); if (is_own(j)) XV_CANARY("scan.own_spared"); else XV_CANARY("scan.adopted_spared"); }
-    else { XV_OBL("hpscan.skips_inactive", npool(j).deleted == 1 && o == 0); if (is_own(j)) XV_CANARY("scan.own_deleted"); else XV_CANARY("scan.adopted_deleted"); }
-  } else {
-    XV_OBL(OBL_CONSERVE, npool(j).deleted == 0 && o == 0);
-    XV_CANARY("scan.outside");
-  }
-  /* C17: a node whose only "protection" is in a non-active entry is reclaimed */
-  { unsigned k = nondet_uint(), i = nondet_uint();
-    if (k < in_ne && i < XV_K && in_state[k] != ES_active && MP_mark(in_slot[k][i]) == 0 && (is_own(j) || is_adopted(j)) && !PROTECTED(j)
+  /* every node of the pool (explicit loop: constant indices keep the formula simple) */
+  for (unsigned j = 0; j < NN; j++) {
+    unsigned o = occ(local_thread_data.retire_list, NODE(j)); _Bool prot = PROTECTED(j);
+    if (is_own(j) || is_adopted(j)) {
+      XV_OBL(OBL_CONSERVE, (npool(j).deleted == 1 && o == 0) || (npool(j).deleted == 0 && o == 1));
+      if (prot) { XV_OBL(OBL_SPARES, npool(j).deleted == 0 && o == 1); if (is_own(j)) XV_CANARY("scan.own_spared"); else XV_CANARY("scan.adopted_spared"); }
+      else { XV_OBL("hpscan.skips_inactive", npool(j).deleted == 1 && o == 0); if (is_own(j)) XV_CANARY("scan.own_deleted"); else XV_CANARY("scan.adopted_deleted"); }
+      /* C17: a word/era in a NON-active entry that would protect this node does not keep it alive */
+      for (unsigned k = 0; k < XV_E; k++) for (unsigned i = 0; i < XV_K; i++)
+        if (k < in_ne && in_state[k] != ES_active && MP_mark(in_slot[k][i]) == 0 && !prot
 #ifdef XV_HE
-        && in_cera[j] <= (MP_get(in_slot[k][i]) >> 1) && (MP_get(in_slot[k][i]) >> 1) <= in_rera[j]
+            && in_cera[j] <= (MP_get(in_slot[k][i]) >> 1) && (MP_get(in_slot[k][i]) >> 1) <= in_rera[j]
 #else
-        && MP_get(in_slot[k][i]) == in_addr[j]
+            && MP_get(in_slot[k][i]) == in_addr[j]
 #endif
-       ) XV_CANARY("scan.inactive_entry_ignored"); }
+           ) XV_CANARY("scan.inactive_entry_ignored");
+    } else {
+      XV_OBL(OBL_CONSERVE, npool(j).deleted == 0 && o == 0);
+      if (j == NN - 1) XV_CANARY("scan.outside");
+    }
+  }
   if (in_ne == XV_E && in_nl == XV_L && in_na == XV_LA && len == XV_L + XV_LA) XV_CANARY("scan.full_all_spared");
   if (in_ne == 0 && in_nl == XV_L) XV_CANARY("scan.no_entries");
 }
@@ -389,13 +448,43 @@ void h_scan_int(void) {
 #endif
 }
 
+/* =============================== gather (one control block) =============================== */
+#ifndef XV_ABS_VEC
+#ifdef XV_HE
+#define GATHER_REAL(e, v) he_tcb_gather((e), (v))
+#define WORD_OF(w) (MP_get(w) >> 1)
+#else
+#define GATHER_REAL(e, v) hp_tcb_gather((e), (v))
+#define WORD_OF(w) MP_get(w)
+#endif
+void h_gather(void) {
+  /* any entry, any slot words, a vector with an arbitrary prefix of n0 elements and room for K more */
+  havoc_state(); XV_ASSUME(in_ne >= 1);
+  unsigned k = nondet_uint(); XV_ASSUME(k < in_ne);
+  in_vec.n = nondet_uchar(); XV_ASSUME(in_vec.n + XV_K <= VCAP);
+  for (unsigned i = 0; i <= VCAP; i++) in_vec.data[i] = nondet_uptr();
+  struct vec v0 = in_vec; unsigned char n0 = in_vec.n;
+  g_seen_active[k] = 1;                       /* so that the monitor records what is read */
+  GATHER_REAL(ENTRY(k), &in_vec);
+  unsigned cnt = 0; for (unsigned i = 0; i < XV_K; i++) if (MP_mark(in_slot[k][i]) == 0) cnt++;
+  XV_OBL("hpscan.gather.exact", in_vec.n == n0 + cnt && !g_model_overflow);
+  { unsigned p = nondet_uint(); XV_ASSUME(p < n0); XV_OBL("hpscan.gather.exact", in_vec.data[p] == v0.data[p]); }                 /* prefix untouched */
+  { unsigned i = nondet_uint(); XV_ASSUME(i < XV_K);                                                                               /* every non-link word is appended, in slot order */
+    unsigned before = 0; for (unsigned q = 0; q < XV_K; q++) if (q < i && MP_mark(in_slot[k][q]) == 0) before++;
+    if (MP_mark(in_slot[k][i]) == 0) { XV_OBL("hpscan.gather.exact", in_vec.data[n0 + before] == WORD_OF(in_slot[k][i])); XV_CANARY("gather.value"); } else XV_CANARY("gather.link");
+    XV_OBL("hpscan.gather.all_slots", g_slot_reads[k][i] == 1); }
+  { unsigned o = nondet_uint(), i = nondet_uint(); XV_ASSUME(o < XV_E && o != k && i < XV_K); XV_OBL("hpscan.gather.exact", g_slot_reads[o][i] == 0 && g_state_store_n == 0); }
+  if (cnt == XV_K && n0 > 0) XV_CANARY("gather.full");
+}
+#endif
+
 /* =============================== reclaim_nodes =============================== */
+#ifndef XV_ABS_VEC
 #ifdef XV_HE
 #define RECLAIM_REAL(t, l, v) he_reclaim_nodes((t), (l), (v))
 #else
 #define RECLAIM_REAL(t, l, v) hp_reclaim_nodes((t), (l), (v))
 #endif
-struct vec in_vec;
 void h_reclaim(void) {
   /* retire list = own(0..nl-1) (kept by an earlier call), list to process = adopted(0..na-1), vector: any sorted content */
   havoc_state();
@@ -418,6 +507,7 @@ void h_reclaim(void) {
   if (in_vec.n == VCAP && in_na == XV_LA && in_nl == XV_L) XV_CANARY("reclaim.full");
   if (in_vec.n == 0 && in_na) XV_CANARY("reclaim.empty_vector");
 }
+#endif
 
 /* =============================== ~thread_data =============================== */
 void h_dtor(void) {
